@@ -479,7 +479,7 @@ def tasks(tier):
     for exc in (False, True):
         for w in (("1.0", False, exc, "general"), ("1.0", True, exc, "lookup"), ("2.x", False, exc, "free")):
             out.append(w + (turns, False, cls_kinds, "single", "async"))
-            for form in ("sync", "wrapped"):
+            for form in ("sync", "wrapped", "class-sync", "class-async"):
                 out.append(w + (turns, tier == "thorough", ("raise", "none") if tier == "thorough" else ("raise",), "single", form))
     out.append(("audit", False, 3 if tier == "quick" else 4, kinds))
     out.append(("extra",))
